@@ -174,7 +174,7 @@ Qed.
 Lemma do_step_pdat fx m d s : fx_pipes fx = true -> fx_reg fx = true -> d_pdat d = Some (Whole (m_pipes m)) ->
   d_pdat (snd (do_step fx (m, d) s)) = Some (Whole (m_pipes (fst (do_step fx (m, d) s)))).
 Proof.
-  intros F Fr H. destruct s as [p ts| |n|n|p|n s t]; cbn [do_step].
+  intros F Fr H. destruct s as [p ts| |n|n|p|n s t|p ts]; cbn [do_step].
   - apply do_write_pdat. exact H.
   - cbn. exact H.
   - destruct (mem_nat n (m_pipes m)); [exact H|]. rewrite F. reflexivity.
@@ -184,6 +184,8 @@ Proof.
   - destruct (mem_nat s (m_parts m)); [|exact H]. rewrite Fr. cbn [negb andb].
     match goal with |- context [do_write fx m d t ?x] => pose proof (do_write_pdat fx m d t x H) as E; destruct (do_write fx m d t x) as [m1 d1] end.
     exact E.
+  - destruct (lookup p (m_cur m)); [|apply do_write_pdat; exact H].
+    pose proof (do_write_pdat fx m d p ts H) as E. destruct (do_write fx m d p ts) as [m1 d1]. exact E.
 Qed.
 
 Lemma pipes_crash_fixed fx : fx_pipes fx = true -> fx_reg fx = true -> pipes_crash_statement fx.
@@ -219,8 +221,11 @@ Proof.
   intros S Ht R. unfold range_query, light_hull. destruct evs as [|e evs]; [destruct Ht|].
   pose proof (sorted_le_last _ S t e Ht) as L.
   unfold in_range in R. apply andb_true_iff in R as [R1 R2]. apply Z.leb_le in R1.
+  apply Z.leb_le in R2.
+  assert (e <= t) by (inversion S as [|? ? S' F]; subst; destruct Ht as [<-|Ht]; [lia|]; rewrite Forall_forall in F; exact (F t Ht)).
   assert ((Z.max e (last (e :: evs) e) <? lo) = false) as -> by (apply Z.ltb_ge; lia).
-  apply filter_In. split; [exact Ht|]. unfold in_range. apply andb_true_iff. split; [apply Z.leb_le; lia|exact R2].
+  assert ((hi <? Z.min e (last (e :: evs) e)) = false) as -> by (apply Z.ltb_ge; lia). cbn [orb].
+  apply filter_In. split; [exact Ht|]. unfold in_range. apply andb_true_iff. split; apply Z.leb_le; lia.
 Qed.
 
 Definition range_after_start_statement (fx : fixes) : Prop :=
@@ -309,7 +314,7 @@ Proof.
   destruct (flush_fold_spec (m_cur m) (m_buf m) NDb Hc (d_jrnl d) ND) as [N1 E1].
   unfold graceful. rewrite F. unfold flush_all. fold (flush_fold (m_cur m) (m_buf m) (d_jrnl d)).
   set (j1 := flush_fold (m_cur m) (m_buf m) (d_jrnl d)) in *. cbn [m_hull m_pipes d_tdat d_tbak d_jrnl d_next].
-  set (d1 := mkDisk (d_tdat d) (d_tbak d) (Some (Whole (m_hull m))) (Some (Whole (m_pipes m))) j1 (d_next d) (clobber_twin fx (d_prog d))).
+  set (d1 := mkDisk (d_tdat d) (d_tbak d) (Some (Whole (saved_hulls fx (mkMem (m_parts m) [] (m_hull m) (m_pipes m) (m_cur m) (m_prog m) (m_phull m))))) (Some (Whole (m_pipes m))) j1 (d_next d) (clobber_twin fx (d_prog d))).
   assert (J1 : forall p, In p (with_data d1) -> In p (m_parts m)).
   { intros p Hp. apply (with_data_events d1 p N1) in Hp. cbn [d1 d_jrnl] in Hp. rewrite E1 in Hp.
     destruct (events_of p (d_jrnl d)) eqn:Ev.
@@ -434,7 +439,7 @@ Proof.
                                    | Some h => update (match lookup p (m_cur m) with Some c => c | None => d_next d' end) h (m_hull m)
                                    | None => m_hull m end)
                                   (m_pipes m)
-                                  (update p (match lookup p (m_cur m) with Some c => c | None => d_next d' end) (m_cur m)) (m_prog m)) d''
+                                  (update p (match lookup p (m_cur m) with Some c => c | None => d_next d' end) (m_cur m)) (m_prog m) (m_phull m)) d''
                 /\ keys_nodup d'').
     { intros d'' E1 E2. split; [split; [|split; [|split; [|split]]]|].
       - cbn [m_parts]. rewrite E1. exact Td.
@@ -491,7 +496,7 @@ Qed.
 Lemma do_step_consistent fx m d s : consistent m d -> keys_nodup d ->
   consistent (fst (do_step fx (m, d) s)) (snd (do_step fx (m, d) s)) /\ keys_nodup (snd (do_step fx (m, d) s)).
 Proof.
-  intros C ND. destruct s as [p ts| |n|n|p|n s t].
+  intros C ND. destruct s as [p ts| |n|n|p|n s t|p ts].
   - cbn [do_step]. apply do_write_consistent; assumption.
   - cbn [do_step]. apply flush_all_consistent; assumption.
   - cbn [do_step]. destruct (mem_nat n (m_pipes m)); [split; assumption|]. cbn [fst snd].
@@ -517,6 +522,8 @@ Proof.
     + unfold keys_nodup. rewrite DJ. apply remove_key_nodup. exact ND.
   - cbn [do_step]. destruct (mem_nat s (m_parts m)); [|split; assumption].
     apply do_write_consistent; assumption.
+  - cbn [do_step]. destruct (lookup p (m_cur m)); [|apply do_write_consistent; assumption].
+    pose proof (do_write_consistent fx m d p ts C ND) as E. destruct (do_write fx m d p ts) as [m1 d1]. exact E.
 Qed.
 
 Lemma run_steps_consistent fx l : forall m d, consistent m d -> keys_nodup d ->
@@ -612,7 +619,7 @@ Qed.
 
 Lemma do_step_cdat fx m d s : d_cdat (snd (do_step fx (m, d) s)) = d_cdat d.
 Proof.
-  destruct s as [p ts| |n|n|p|n s t]; cbn [do_step].
+  destruct s as [p ts| |n|n|p|n s t|p ts]; cbn [do_step].
   - apply do_write_cdat.
   - reflexivity.
   - destruct (mem_nat n (m_pipes m)); [reflexivity|]. destruct (fx_pipes fx); reflexivity.
@@ -621,6 +628,8 @@ Proof.
   - destruct (mem_nat s (m_parts m)); [|reflexivity].
     match goal with |- context [do_write fx m d t ?x] => pose proof (do_write_cdat fx m d t x) as E; destruct (do_write fx m d t x) as [m1 d1] end.
     exact E.
+  - destruct (lookup p (m_cur m)); [|apply do_write_cdat].
+    pose proof (do_write_cdat fx m d p ts) as E. destruct (do_write fx m d p ts) as [m1 d1]. exact E.
 Qed.
 
 Lemma run_steps_cdat fx l : forall m d, d_cdat (snd (run_steps fx (m, d) l)) = d_cdat d.
@@ -792,4 +801,77 @@ Proof.
   destruct (tindex_init (graceful fx m d)); [|discriminate S]. destruct (pipes_init (graceful fx m d)); [|discriminate S].
   injection S as <- _. cbn [m_prog]. unfold prog_init in P. rewrite graceful_prog in P. unfold clobber_twin in P. rewrite F in P.
   apply (prog_init_lookup fx (d_prog d) l n k P L).
+Qed.
+
+(* ---------- a chunk the time index learnt about from a write (HullPartial) across a graceful restart ---------- *)
+Lemma lookup_remove_key_same {A} p (l : list (nat * A)) : lookup p (remove_key p l) = None.
+Proof.
+  induction l as [|[q w] l IH]; [reflexivity|]. cbn [remove_key]. destruct (Nat.eqb q p) eqn:E; [exact IH|].
+  cbn [lookup]. rewrite E. exact IH.
+Qed.
+
+Lemma lookup_app_none {A} p (l1 l2 : list (nat * A)) : lookup p l1 = None -> lookup p (l1 ++ l2) = lookup p l2.
+Proof.
+  induction l1 as [|[q w] l1 IH]; intros H; [reflexivity|]. cbn [lookup app] in *. destruct (Nat.eqb q p); [discriminate H|exact (IH H)].
+Qed.
+
+(* the snapshot a graceful stop writes has no time range for a chunk that is marked: the start collects it from the chunk *)
+Definition partial_mark_statement (fx : fixes) : Prop :=
+  forall m d p ts cid, lookup p (m_cur m) = Some cid ->
+  let m1 := fst (do_step fx (m, d) (SBlindWrite p ts)) in
+  lookup cid (saved_hulls fx m1) = None /\ hull_of p m1 = None.
+
+Lemma do_write_cur fx m d p ts cid : lookup p (m_cur m) = Some cid -> lookup p (m_cur (fst (do_write fx m d p ts))) = Some cid.
+Proof.
+  intros L. unfold do_write. rewrite L. cbn [fst m_cur]. apply lookup_update_same.
+Qed.
+
+Lemma partial_mark_saved fx : fx_partial fx = true -> partial_mark_statement fx.
+Proof.
+  intros F m d p ts cid L m1. unfold m1. cbn [do_step]. rewrite L.
+  pose proof (do_write_cur fx m d p ts cid L) as C. destruct (do_write fx m d p ts) as [m2 d2]. cbn [fst] in *.
+  unfold saved_hulls, hull_of. cbn [m_hull m_phull m_cur]. rewrite F, app_nil_r, C. split; apply lookup_remove_key_same.
+Qed.
+
+Lemma lookup_prune_none j s c : lookup c s = None -> lookup c (prune j s) = None.
+Proof.
+  unfold prune. induction s as [|[q h] s IH]; intros H; [reflexivity|]. cbn [lookup] in H. cbn [filter].
+  destruct (Nat.eqb q c) eqn:E; [discriminate H|].
+  destruct (existsb _ j); [cbn [lookup]; rewrite E|]; exact (IH H).
+Qed.
+
+Lemma light_fill_unknown j : forall s p cid evs, NoDup (map chunk_id j) -> lookup cid s = None -> In (p, (cid, evs)) j -> evs <> [] ->
+  lookup cid (light_fill j s) = light_hull evs.
+Proof.
+  induction j as [|[q [c0 e]] j IH]; intros s p cid evs ND Hs I NE; [destruct I|].
+  cbn [map] in ND. inversion ND as [|? ? Hc ND']. subst. unfold light_fill. cbn [fold_left]. fold (light_fill j).
+  destruct I as [E|I].
+  - injection E as -> -> ->. rewrite Hs. destruct evs as [|e0 evs]; [congruence|]. cbn [light_hull].
+    apply light_fill_keeps. apply lookup_update_same.
+  - assert (N : c0 <> cid).
+    { intros ->. apply Hc. apply in_map_iff. exists (p, (cid, evs)). split; [reflexivity|exact I]. }
+    apply (IH _ p cid evs ND'); [|exact I|exact NE].
+    destruct (lookup c0 s); [exact Hs|]. destruct (light_hull e); [|exact Hs]. rewrite lookup_update_other; [exact Hs|congruence].
+Qed.
+
+(* a start on a directory whose snapshot says nothing about a chunk: its range is collected from the chunk *)
+Lemma start_unknown_chunk_hull fx d m' d' p : chunk_ids_unique d -> start fx d = Some (m', d') ->
+  (forall cid evs, lookup p (d_jrnl d) = Some (cid, evs) -> lookup cid (cindex_init d) = None) ->
+  keys_nodup d -> events_of p (d_jrnl d') <> [] -> hull_of p m' = light_hull (events_of p (d_jrnl d')).
+Proof.
+  intros U S Hs ND NE. unfold start in S. destruct (prog_init fx d); [|discriminate S].
+  destruct (tindex_init d); [|discriminate S]. destruct (pipes_init d); [|discriminate S].
+  injection S as <- <-. rewrite tsave_jrnl in *. cbn [d_jrnl] in *.
+  set (j := filter has_data (d_jrnl d)) in *. unfold hull_of. cbn [m_cur m_hull].
+  rewrite lookup_map_cur. unfold events_of in *. destruct (lookup p j) as [[c e]|] eqn:L; [|congruence].
+  apply (light_fill_unknown j _ p c e).
+  - apply NoDup_map_filter. exact U.
+  - apply lookup_prune_none. apply (Hs c e). apply lookup_In in L. unfold j in L. apply filter_In in L as [L _].
+    clear -L ND. unfold keys_nodup in ND. induction (d_jrnl d) as [|[q v] l IH]; [destruct L|].
+    cbn [map fst] in ND. inversion ND as [|? ? Hq ND']. subst. cbn [lookup]. destruct L as [E|L].
+    + injection E as -> ->. rewrite Nat.eqb_refl. reflexivity.
+    + destruct (Nat.eqb q p) eqn:Q; [|exact (IH ND' L)]. apply Nat.eqb_eq in Q. subst q. exfalso. apply Hq.
+      apply in_map_iff. exists (p, (c, e)). split; [reflexivity|exact L].
+  - apply lookup_In. exact L.
+  - exact NE.
 Qed.
